@@ -82,7 +82,7 @@ Fixpoint project (pool : list call) (h : list worker) (k : nat) (l : list event)
   | S j, e :: old =>
       let acc' :=
         match e with
-        | EvStart w _ _ => mkObs (w_tid (getw h w) :: o_starts acc) (o_cancels acc) (o_returns acc) (o_rets acc)
+        | EvStart w _ _ _ => mkObs (w_tid (getw h w) :: o_starts acc) (o_cancels acc) (o_returns acc) (o_rets acc)
         | EvCancel w => if live_in old w
                         then mkObs (o_starts acc) (w_tid (getw h w) :: o_cancels acc) (o_returns acc) (o_rets acc)
                         else acc
